@@ -192,6 +192,15 @@ CHECKS["C10"] = dict(
     level_text="Bounded symbolic execution of the real RPC handlers with goroutines, channels and mutexes under the engine's scheduler: every cut point / termination mode is a symbolic choice; a wedge shows up as a deadlock of the probe, which is replayed natively under a watchdog.",
     level_note="Trusted: go/ssa, gosym scheduler (sync-point granularity, context bound stated per run), z3, rib models.")
 
+CHECKS["C14"] = dict(
+    runs=[dict(pkg="client", harness="VfC14_fault", reach=["end", "reset-done", "done-signalled"], validate=2, opts=dict(unwind=40),
+               bounds="real Connect (sender + receiver goroutines) against a scripted conformant stream with ONE fault: Send failing from index 0-3 (immediately, or slowly while the application keeps queueing) or Recv failing after 0-3 responses, 3 status classes; a burst of 8 queued requests (> buffer 5 + in flight); then AwaitConverged, Done, Close (optional), Reset, reconnect on a healthy stream, one more exchange; deterministic schedule"),
+          dict(pkg="client", harness="VfC14_faultSched", reach=["end"], quick=dict(skip=True), validate=0, replay_attempts=10, opts=dict(unwind=40),
+               bounds="as fault with one pre-emptive context switch at any synchronisation point")],
+    assumptions=["the gRPC stream is a scripted object: a failed Send also ends the receive side, CloseSend ends the stream with EOF", "goroutines run as coroutines switching at synchronisation operations only"],
+    level_text="Bounded symbolic execution of the client's connection machinery under the engine's scheduler with the fault position/kind symbolic; a blocked call shows up as a failed assertion or as a deadlock, replayed natively under a watchdog.",
+    level_note="Trusted: go/ssa, gosym scheduler (context bound per run), z3.")
+
 NOT_APPLICABLE = {
     "C19": "whole compliance-suite runs over in-memory gRPC against wrapped servers in every order: a whole-program execution through gRPC, testing and reflection; no bounded symbolic encoding within reach (DESIGN.md §8)",
 }
